@@ -159,6 +159,27 @@ fn mapping_atomic_type_is_empty(
         }
     }
 
+    // An index signature over all strings stands for arbitrarily many independent entries, and each
+    // negative may have to be escaped through a different one ({ [k: string]: "a" | "b" } is not
+    // covered by { [k: string]: "a" } | { [k: string]: "b" }). The per-key search below only sees
+    // named properties, so name one admissible entry per negative; the set of values is unchanged.
+    let mut atom = atom;
+    if !is_map
+        && neg_mappings.len() >= 2
+        && let Some(idx) = &atom.indexed_properties
+        && idx.key.is_all_strings()
+    {
+        let entry = SemTypeContext::make_optional(idx.value.clone())?;
+        let mut expanded = (*atom).clone();
+        for i in 0..neg_mappings.len() {
+            expanded
+                .vs
+                .entry(format!("\u{0}entry{}", i))
+                .or_insert_with(|| entry.clone());
+        }
+        atom = Rc::new(expanded);
+    }
+
     check_mapping_empty(atom, &neg_mappings, ctx, is_map)
 }
 
